@@ -428,7 +428,7 @@ func (i *interpreter) globalOK(g *ssa.Global) bool {
 	switch g.String() {
 	case "crypto/rand.Reader":
 		return true
-	case "os.Stderr", "os.Stdout", "os.Stdin", "os.Args":
+	case "os.Stderr", "os.Stdout", "os.Stdin", "os.Args", "flag.Usage":
 		// opaque handles (nil inside the engine): only passed to intrinsics
 		return true
 	}
